@@ -5,7 +5,11 @@ use crate::engine::{PropMeta, Space, Tier};
 pub mod c01;
 pub mod c02;
 pub mod c03;
+pub mod c04;
+pub mod c05;
 pub mod c06;
+pub mod c09;
+pub mod c10;
 pub mod c11;
 pub mod c12;
 pub mod c13;
@@ -16,7 +20,11 @@ pub fn spaces(prop: &str, tier: Tier) -> Vec<Box<dyn Space>> {
         "C01" => c01::spaces(tier),
         "C02" => c02::spaces(tier),
         "C03" => c03::spaces(tier),
+        "C04" => c04::spaces(tier),
+        "C05" => c05::spaces(tier),
         "C06" => c06::spaces(tier),
+        "C09" => c09::spaces(tier),
+        "C10" => c10::spaces(tier),
         "C11" => c11::spaces(tier),
         "C12" => c12::spaces(tier),
         "C13" => c13::spaces(tier),
@@ -29,7 +37,11 @@ pub fn meta(prop: &str, tier: Tier) -> PropMeta {
         "C01" => c01::meta(tier),
         "C02" => c02::meta(tier),
         "C03" => c03::meta(tier),
+        "C04" => c04::meta(tier),
+        "C05" => c05::meta(tier),
         "C06" => c06::meta(tier),
+        "C09" => c09::meta(tier),
+        "C10" => c10::meta(tier),
         "C11" => c11::meta(tier),
         "C12" => c12::meta(tier),
         "C13" => c13::meta(tier),
